@@ -8,6 +8,7 @@ import time
 
 import common
 import gen
+import progs as PB
 from common import run_tlc, run_impl, Verdict, scratch
 
 Q2 = (0, 1)
@@ -71,14 +72,69 @@ def kinds_menu(repo=None):
     return [gen.leaf(t['kind'], t['qs'], t['chans'], t['dur'], t['tag'], t['extra']) for t in d['templates']], d['templates']
 
 
+def directed(name, quick):
+    """Hand-directed families (shapes deeper than the bounded search reaches)."""
+    out = []
+    if name == 'flatdir':
+        # main = [optional leading op]; sub1 over qubits {0,1,2}; sub2 over {0..3}; nested one after the other, (unrolled,) flattened twice
+        import itertools
+        qsets1 = [c for r in (1, 2, 3) for c in itertools.combinations((0, 1, 2), r)]
+        qsets2 = [c for r in (1, 2) for c in itertools.permutations((0, 1, 2, 3), r)]
+        for lead in (None, 0, 3):
+            for s1 in qsets1:
+                for s2 in qsets2:
+                    for rep in ((1,) if quick else (1, 2)):
+                        P = PB.Prog()
+                        main = P.new()
+                        if lead is not None:
+                            P.add(main, PB.X(lead))
+                        a = P.new(rep=rep)
+                        for q in s1:
+                            P.add(a, PB.X(q))
+                        b = P.new()
+                        for q in s2:
+                            P.add(b, PB.X(q) if q != 3 else PB.M(q))
+                        P.add_sub(main, a)
+                        P.add_sub(main, b)
+                        if rep > 1:
+                            P.act('Apply', main)
+                        P.act('Flatten', main)
+                        P.act('Flatten', main)
+                        out.append(P.steps)
+    if name == 'copyapplied':
+        # a block of parallel operations, repeated, unrolled, THEN copied / nested; afterwards the registry duration changes
+        for n in (2, 3):
+            for route in ('CopyCirc', 'AddSub'):
+                for d0 in (4, 12):
+                    for change in (False, True):
+                        P = PB.Prog()
+                        c = P.new(rep=n)
+                        P.add(c, PB.W(0, d0))
+                        P.add(c, PB.leaf('Wait', [1], [[1, 'ALL']], ['reg', 'k1']))
+                        x = P.add(c, PB.X(2))
+                        P.add(c, PB.W(2, 2), ref=x, rt='JS')
+                        P.act('SetDur', key='k1', val=6)
+                        P.act('Apply', c)
+                        if route == 'CopyCirc':
+                            P.copy(c)
+                        else:
+                            m = P.new()
+                            P.add(m, PB.W(0, 2))
+                            P.add_sub(m, c)
+                        if change:
+                            P.act('SetDur', key='k1', val=20)
+                        out.append(P.steps)
+    return out
+
+
 SOURCES = {
     'C01': ('flat', 'nest', 'chan', 'deep', 'sim'),
     'C02': ('flat', 'nest', 'chan', 'deep', 'sim'),
     'C04': ('flat', 'nest', 'sim'),
-    'C05': ('kinds', 'nest', 'sim'),
-    'C06': ('unroll', 'nest', 'sim'),
+    'C05': ('kinds', 'copyapplied', 'nest', 'sim'),
+    'C06': ('unroll', 'unroll2', 'nest', 'sim'),
     'C07': ('acq', 'sim'),
-    'C11': ('flatten', 'sim'),
+    'C11': ('flatten', 'flatdir', 'sim'),
     'C03': ('hist', 'sim'),
 }
 
@@ -153,10 +209,20 @@ M_Init == /\\ heap = DoNewCircuit(DoAddOp(DoNewCircuit(<<>>, "n1", NoLink, <<"fi
       linktypes=('FB',), max_circs=3, max_objs=12, max_steps=9, simulate='num=%d' % (1200 if quick else 12000), depth=10, min_emit=6,
       one_in=4, cap=1500 if quick else 20000, timeout=120,
       keep=lambda p: any(s['a'] == 'Apply' for s in p) and any(s['a'] == 'AddSub' for s in p))
+    # (2e') exhaustive, tiny alphabet: a repeated block nested in a repeated block next to a parallel operation whose length
+    #       lies between one pass and all passes of the inner block (which relation leaf ends last changes while unrolling)
+    g('unroll2', [gen.leaf('Wait', [0], [[0, 'ALL']], ['fixed', 4]), gen.leaf('Wait', [1], [[1, 'ALL']], ['fixed', 6])],
+      reps=[('fixed', 2), ('fixed', 3)], acts=('NewCircuit', 'AddOp', 'AddSub', 'Apply'), linktypes=(), max_circs=2, max_objs=8,
+      max_steps=6 if quick else 7, workers=8, min_emit=6, timeout=120, cap=1500 if quick else 20000,
+      keep=lambda p: p[-1]['a'] == 'Apply' and any(s['a'] == 'AddSub' for s in p))
+    for dn in ('flatdir', 'copyapplied'):
+        if dn in want:
+            out.append({'name': dn, 'programs': directed(dn, quick), 'generated': 0, 'tlc_states': 0, 'tlc_generated': 0, 'mode': 'directed family (python)'})
+            out[-1]['generated'] = len(out[-1]['programs'])
     # (2f) measurements on interleaved qubits with tags, against the registry of the circuit or of a sub-circuit nested
     #      later, unrolled
     g('acq', meas(Q2) + [gen.leaf('Rx180', [0], [[0, 'MICROWAVE']], ['global', 'MW'])],
-      reps=[('fixed', 1), ('fixed', 2)], acts=('NewCircuit', 'AddOp', 'AddSub', 'Apply'), linktypes=(), max_circs=3,
+      reps=[('fixed', 1), ('fixed', 2)], acts=('NewCircuit', 'AddOp', 'AddSub', 'Apply', 'Obs'), linktypes=(), max_circs=3,
       max_objs=12, max_steps=9, simulate='num=%d' % (1200 if quick else 12000), depth=10, min_emit=5, one_in=1, cap=1500 if quick else 20000, timeout=120,
       keep=lambda p: p[-1]['a'] == 'Apply' and sum(1 for s in p if s['a'] == 'AddOp' and s['m']['kind'] == 'DispersiveMeasure') >= 2)
     # (2g) implicitly sequenced nested programs, flattened (twice)
